@@ -676,6 +676,11 @@ pub struct StreamCase {
     /// frames the peer sends before any request: (delay_ms, tx, pdu)
     pub idle_frames: Vec<(u32, u16, Vec<u8>)>,
     pub select_seed: u64,
+    /// request indices after which a setting that changes nothing (the decode level the channel
+    /// already has) is queued: not a request outcome, so it must not touch deadlines or the
+    /// consecutive-timeout count
+    #[serde(default)]
+    pub settings_after: Vec<usize>,
 }
 
 fn arb_reply_pdu_simple() -> BoxedStrategy<PduSel> {
@@ -748,6 +753,7 @@ pub fn arb_c11() -> BoxedStrategy<StreamCase> {
                 plans,
                 idle_frames: idle,
                 select_seed,
+                settings_after: vec![],
             })
         })
         .boxed()
@@ -769,8 +775,9 @@ pub fn arb_c12() -> BoxedStrategy<StreamCase> {
             1..=12,
         ),
         any::<u64>(),
+        prop_oneof![2 => Just(Vec::new()), 1 => vec(0usize..12, 1..4)],
     )
-        .prop_flat_map(|(framing, decode, max_timeouts, reqs, select_seed)| {
+        .prop_flat_map(|(framing, decode, max_timeouts, reqs, select_seed, settings_after)| {
             let plans: Vec<BoxedStrategy<Vec<PeerAct>>> = reqs
                 .iter()
                 .map(|(_, _, t, _, _)| {
@@ -807,6 +814,7 @@ pub fn arb_c12() -> BoxedStrategy<StreamCase> {
                 plans,
                 idle_frames: vec![],
                 select_seed,
+                settings_after: settings_after.clone(),
             })
         })
         .boxed()
@@ -832,6 +840,9 @@ pub fn stream_cli_case(case: &StreamCase) -> CliCase {
             timeout_ms: *timeout,
             req: req.clone(),
         });
+        if case.settings_after.contains(&i) {
+            ops.push(COp::SetDecode(0, case.decode));
+        }
     }
     let mut cli = CliCase {
         cfg: CliConfig {
@@ -870,6 +881,9 @@ pub fn judge_stream(case: &StreamCase) -> StreamJudgement {
     let mut ok = CaseOk::new();
     let cli = stream_cli_case(case);
     let run = run_client(&cli);
+    if case.settings_after.iter().any(|i| *i < case.requests.len()) {
+        ok.label("settings_between_requests");
+    }
     let fail = |m: String, ok: CaseOk| StreamJudgement {
         violation: Some(m),
         ok,
